@@ -34,6 +34,11 @@ CHECKS = {
     text="Exploration: hand-built formulas (0..40 variables, empty formula, empty clauses, unused variables, hostile header values and names incl. LF/CR/CRLF), 61 family command lines and transformation chains, header x varnames combinations, all write routes (to_dimacs, to_file to StringIO/path/handle/stdout, cnfgen -q/-v/--varnames/-o, kthlist2pebbling) and read routes (from_file on StringIO/path/handle/stdin, cnfgen dimacs, cnfshuffle).  Output lines must be comment / the problem line with true counts / the next clause; ~20k (quick) texts from 45 mutation kinds: only ValueError may be raised, a must-reject text is never accepted, an accepted text equals its reference reading.",
     note="Trusts vmon/refmodels/c06_dimacs.py (self-checked on 30 fixed texts incl. the doctest examples).  Texts the writer would not produce may be refused; only their reading, if accepted, is judged.",
     design="5/C06"),
+ "C07": dict(
+    technique="runtime monitoring: the same (argv, seed) in fresh processes that differ in PYTHONHASHSEED and working directory, byte comparison of stdout and saved files; in-process RNG event trace checked against 'no draw before seed(s)'",
+    text="Exploration: ~690 command lines covering every source of randomness (random families, random graph arguments and modifiers, save, shuffle / compression transformations, cnfgen, pbgen, cnfshuffle, quiet and verbose) x seeds {0, 1, 42, -7, 2^40}: quick runs a rotating quarter in 3 fresh processes each (hash seeds 0/1/random; cwd /repo, /, a fresh directory outside any git tree) and all of them twice in-process under different ambient RNG states with the RNG tap; thorough runs everything in 4 processes per seed.  Library samplers called twice per seed.  Any 0x... address in the output is flagged.",
+    note="Hash seeds, directories and address layouts are sampled.  stderr is not compared.  The RNG tap swaps the class of random._inst (verified not to change the stream).",
+    design="5/C07"),
  "C08": dict(
     technique="runtime monitoring: the same argv through cnfgen and pbgen in-process with equalised RNG state; names, counts and exact model sets (clause evaluator vs bit-sliced adder) compared; sampled assignments beyond the cap",
     text="Exploration: every formula sub-command of the shared corpus (all option combinations, deterministic and random graph constructions, several RNG seeds for random ones) built by both tools; number of variables, name lists and model sets must coincide; 46 realistic-size command lines compared on sampled assignments and one-flip neighbours of found models.",
